@@ -54,6 +54,13 @@ def run(ctx):
     per_cfg = {}
     samples = []
     races = 0
+    # binding mode 3: an object whose fields are context-taking METHODS of a hand-written model (no resolver
+    # field): user code on goroutines all the same
+    try:
+        built["execboom:base"] = gensrv.build_server(ctx, "execboom", "base", race=True)
+    except RuntimeError as e:
+        built["execboom:base"] = e
+    cfgs = list(cfgs) + ["execboom:base"]
     for cfg in cfgs:
         b = built[cfg]
         if isinstance(b, Exception):
@@ -61,7 +68,7 @@ def run(ctx):
                            "shape": {"config": cfg, "build": "fail"}})
             continue
         schema = c01.schema_of(b)
-        rc, so, se = vf.sh([b, "-mode", "gen", "-n", str(n), "-seed", str(ctx.seed), "-profile", "c06"],
+        rc, so, se = vf.sh([b, "-mode", "gen", "-n", str(n if cfg != "execboom:base" else max(100, n // 4)), "-seed", str(ctx.seed), "-profile", "c06"],
                            env={"GORACE": "halt_on_error=0 exitcode=66"}, timeout=2400)
         if "WARNING: DATA RACE" in se:
             races += 1
@@ -75,7 +82,7 @@ def run(ctx):
         # repeatedly: a race needs two goroutines to meet
         import glob, os
         ccases = []
-        for f in sorted(glob.glob(os.path.join(vf.VERIF, "corpus", "C06", "*.jsonl"))):
+        for f in sorted(glob.glob(os.path.join(vf.VERIF, "corpus", "C06", "execboom" if cfg == "execboom:base" else "", "*.jsonl"))):
             ccases += [l for l in open(f).read().split("\n") if l.strip()]
         if ccases:
             reps = 15 if ctx.tier == "quick" else 100
